@@ -951,6 +951,10 @@ func (env *Env) eq(a, b Val) string {
 	if a.K == VScalar && a.Ghost {
 		return "(= " + a.T + " " + b.T + ")"
 	}
+	if a.K == VSlice && b.K == VSlice {
+		// specification-level equality of slices: same backing store and same length (Go itself only compares with nil)
+		return "(and (= " + a.F[0].T + " " + b.F[0].T + ") (= " + a.F[1].T + " " + b.F[1].T + "))"
+	}
 	return env.c.eqVal(a, b)
 }
 
